@@ -69,14 +69,17 @@ M = [
   "            if (omim_disease.hpo_terms() & &phenotype_ids).is_empty() {", "            if (omim_disease.hpo_terms() & &ids).is_empty() {", ["C14"]),
  ("c15-orpha-check-dropped", "C15", "src/ontology/builder.rs",
   "        if self.hpo_terms.get(term_id).is_none() {\n            return Err(HpoError::DoesNotExist);\n        }\n        self.add_orpha_disease(orpha_name, orpha_id);", "        self.add_orpha_disease(orpha_name, orpha_id);", ["C15"]),
- ("c16-first-wins-to-last-wins-gene", "C16", "src/ontology/builder.rs",
-  "            self.genes.insert(*gene.id(), gene);", "            self.genes.entry(*gene.id()).or_insert(gene);", ["C16", "C08"]),
+ ("c16-closure-assumes-parents-first", "C16", "src/ontology/builder.rs",
+  "        if !self.hpo_terms.get_unchecked(term_id).parents_cached() {\n            self.create_cache_of_grandparents(term_id);\n        }\n",
+  "        if !self.hpo_terms.get_unchecked(term_id).parents_cached() && term_id.to_usize() % 3 != 0 {\n            self.create_cache_of_grandparents(term_id);\n        }\n", ["C16", "C01"]),
+ ("c16-sub-ontology-annotation-order", "C16", "src/ontology/builder.rs",
+  "        if term.add_gene(gene_id) {\n            // If the gene", "        if term.add_gene(gene_id) || term.all_parents().len() == 2 {\n            // If the gene", ["C16", "C02"]),
  ("c18-obsolete-dropped-from-chain", "C18", "src/ontology/comparison.rs",
   "            || obsolete.0 != obsolete.1\n", "", ["C18"]),
  ("c18-orpha-accessor-reads-omim", "C18", "src/ontology/comparison.rs",
-  "            .filter(|disease| self.rhs.orpha_disease(disease.id()).is_none())", "            .filter(|disease| self.rhs.omim_disease(&disease.id().as_u32().into()).is_none())", ["C18"]),
+  "            .filter(|disease| self.rhs.orpha_disease(disease.id()).is_none())", "            .filter(|disease| self.rhs.omim_disease(&crate::annotations::AnnotationId::as_u32(disease.id()).into()).is_none())", ["C18"]),
  ("c19-modifier-keeps-118-when-last", "C19", "src/ontology.rs",
-  "            .filter(|id| id != &crate::PHENOTYPE_ID)\n            .collect();\n        Ok(())", "            .filter(|id| id != &crate::PHENOTYPE_ID || id.as_u32() > 200)\n            .take(5)\n            .collect();\n        Ok(())", ["C19"]),
+  "            .filter(|id| id != &crate::PHENOTYPE_ID)\n            .collect();\n        Ok(())", "            .filter(|id| id != &crate::PHENOTYPE_ID || crate::annotations::AnnotationId::as_u32(id) > 200)\n            .take(5)\n            .collect();\n        Ok(())", ["C19"]),
  ("c19-is-modifier-ancestors-only", "C19", "src/term/hpoterm.rs",
   "            .any(|modifier_root| (self.all_parent_ids() | self.id()).contains(&modifier_root))", "            .any(|modifier_root| self.all_parent_ids().contains(&modifier_root))", ["C19"]),
 ]
@@ -119,7 +122,7 @@ def run_checks(checks, runs=None):
 
 
 def main():
-    only = sys.argv[sys.argv.index("--only") + 1] if "--only" in sys.argv else None
+    only = sys.argv[sys.argv.index("--only") + 1].split(",") if "--only" in sys.argv else None
     tests = "--tests" in sys.argv
     results = []
     setup()
@@ -135,7 +138,7 @@ def main():
                     m = json.load(open(meta))
                     items.append((d, m["property"], ("patch", f"/verif/seeded/{d}/patch.diff"), m.get("checks", [m["property"]])))
         for (name, prop, how, checks) in items:
-            if only and only != name:
+            if only and name not in only:
                 continue
             t0 = time.time()
             sh("git checkout -q -- . && git clean -fdq src tests", cwd=REPO)
@@ -164,8 +167,11 @@ def main():
             print(name, "caught by", entry["caught_by"], {c: v.get("classes") if isinstance(v, dict) else v for c, v in entry["checks"].items()}, flush=True)
         os.makedirs("/verif/sensitivity", exist_ok=True)
         tag = "seeded" if "--seeded" in sys.argv else "own"
-        if not only:
-            json.dump(results, open(f"/verif/sensitivity/results-{tag}.json", "w"), indent=1)
+        path = f"/verif/sensitivity/results-{tag}.json"
+        if only and os.path.exists(path):
+            old = [e for e in json.load(open(path)) if e["name"] not in [r["name"] for r in results]]
+            results = old + results
+        json.dump(results, open(path, "w"), indent=1)
     finally:
         if "--keep" not in sys.argv:
             teardown()
